@@ -8,6 +8,7 @@ import (
 	"testing"
 
 	"github.com/opsidian/parsley/combinator"
+	"github.com/opsidian/parsley/data"
 	"github.com/opsidian/parsley/examples/json/json"
 	"github.com/opsidian/parsley/parser"
 	"github.com/opsidian/parsley/parsley"
@@ -24,6 +25,7 @@ type C14Case struct {
 	Jobs      [][]string `json:"jobs"`
 	Construct bool       `json:"construct"`
 	Procs     int        `json:"procs"`
+	Keywords  [][]string `json:"keywords,omitempty"` // per goroutine: registered in every context of that goroutine
 	Pattern   int        `json:"pattern"` // makes the regular expressions of the "lits" grammar and of concurrently constructed terminals fresh in this process
 }
 
@@ -36,7 +38,7 @@ func (c *C14Case) Describe() string {
 }
 
 func genC14(t *rapid.T) interface{} {
-	c := &C14Case{Grammar: rapid.SampledFrom([]string{"arith", "arith", "json", "json", "lr", "lits", "generated"}).Draw(t, "grammar")}
+	c := &C14Case{Grammar: rapid.SampledFrom([]string{"arith", "arith", "json", "json", "lr", "lits", "generated", "idents", "idents"}).Draw(t, "grammar")}
 	c.Procs = rapid.SampledFrom([]int{2, 4, 16}).Draw(t, "procs")
 	c.Construct = rapid.Bool().Draw(t, "construct")
 	c.Pattern = rapid.IntRange(0, 1<<30).Draw(t, "pattern")
@@ -54,6 +56,11 @@ func genC14(t *rapid.T) interface{} {
 			in = genJSON(t, rapid.IntRange(0, 3).Draw(t, "d"))
 		case "lr":
 			in = rapid.SampledFrom([]string{"a", "ab", "abbbb", "abbbbbbbbb", "b", "abc", "", "abbx"}).Draw(t, "lr")
+		case "idents":
+			n := rapid.IntRange(1, 5).Draw(t, "n")
+			for i := 0; i < n; i++ {
+				in += rapid.SampledFrom(identPool).Draw(t, "ident") + " "
+			}
 		case "lits":
 			n := rapid.IntRange(0, 4).Draw(t, "n")
 			for i := 0; i < n; i++ {
@@ -83,6 +90,8 @@ func genC14(t *rapid.T) interface{} {
 			jobs = append(jobs, input())
 		}
 		c.Jobs = append(c.Jobs, jobs)
+		// every goroutine reserves its own words in its own contexts
+		c.Keywords = append(c.Keywords, rapid.SliceOfNDistinct(rapid.SampledFrom(identPool), 0, 3, rapid.ID[string]).Draw(t, "keywords"))
 	}
 	return c
 }
@@ -97,6 +106,8 @@ func c14Parser(c *C14Case) parsley.Parser {
 		var p parser.Func
 		p = combinator.Memoize(combinator.Any(combinator.SeqOf(&p, terminal.Rune('b')).Bind(concatInterp(true)), terminal.Rune('a')))
 		return combinator.Sentence(&p)
+	case "idents":
+		return combinator.Sentence(combinator.Many(text.Trim(identParser())).Bind(concatInterpAny()))
 	case "lits":
 		lit := combinator.Choice(terminal.Float("f"), terminal.Integer("i"), terminal.String("s", true), terminal.Char("c"),
 			terminal.TimeDuration("d"), terminal.Bool("b", "true", "false"), terminal.Nil("n", "nil"), terminal.Word("w", "foo", 1), terminal.Op("=="),
@@ -127,9 +138,26 @@ func (f interpFunc) Eval(userCtx interface{}, node parsley.NonTerminalNode) (int
 	return f(userCtx, node)
 }
 
-func runOne(p parsley.Parser, in string) string {
+var identPool = []string{"if", "for", "else", "foo", "bar", "x", "while", "let"}
+
+// identParser is a keyword-aware identifier: a lower-case word that the context has not reserved.
+func identParser() parsley.Parser {
+	word := terminal.Regexp("id", "ID", "identifier", "[a-z]+", 0)
+	return parser.Func(func(ctx *parsley.Context, l data.IntMap, pos parsley.Pos) (parsley.Node, data.IntSet, parsley.Error) {
+		n, cp, err := word.Parse(ctx, l, pos)
+		if n != nil {
+			if w, ok := n.(parsley.LiteralNode).Value().(string); ok && ctx.IsKeyword(w) {
+				return nil, cp, parsley.NewErrorf(pos, "%s is a reserved keyword", w)
+			}
+		}
+		return n, cp, err
+	})
+}
+
+func runOne(p parsley.Parser, in string, keywords ...string) string {
 	f := text.NewFile("f", []byte(in))
 	ctx := parsley.NewContext(parsley.NewFileSet(f), text.NewReader(f))
+	ctx.RegisterKeywords(keywords...)
 	v, err := parsley.Evaluate(ctx, p)
 	return fmt.Sprintf("%v / %v / calls=%d", v, err, ctx.CallCount())
 }
@@ -178,6 +206,12 @@ func checkC14(ci interface{}, st *Stats) error {
 	start := make(chan struct{})
 	errs := make([]error, len(c.Jobs))
 	results := make([][]obs, len(c.Jobs))
+	kw := func(g int) []string {
+		if g < len(c.Keywords) {
+			return c.Keywords[g]
+		}
+		return nil
+	}
 	for g, jobs := range c.Jobs {
 		wg.Add(1)
 		go func(g int, jobs []string) {
@@ -190,7 +224,7 @@ func checkC14(ci interface{}, st *Stats) error {
 			<-start
 			for round := 0; round < 3; round++ {
 				for ji, in := range jobs {
-					results[g] = append(results[g], obs{g, in, runOne(p, in), false})
+					results[g] = append(results[g], obs{g, in, runOne(p, in, kw(g)...), false})
 					if c.Construct {
 						switch (g + round) % 4 {
 						case 0:
@@ -203,7 +237,7 @@ func checkC14(ci interface{}, st *Stats) error {
 							runOne(combinator.Sentence(combinator.Many(text.Trim(re)).Bind(concatInterpAny())), "ab cd")
 						default:
 							q := c14Parser(c)
-							results[g] = append(results[g], obs{g, in, runOne(q, in), true})
+							results[g] = append(results[g], obs{g, in, runOne(q, in, kw(g)...), true})
 						}
 					}
 				}
@@ -217,13 +251,13 @@ func checkC14(ci interface{}, st *Stats) error {
 			return e
 		}
 	}
-	want := map[string]string{}
 	failingG := 0
 	for g, jobs := range c.Jobs {
+		want := map[string]string{} // per goroutine: its keywords are part of its runs
 		f := false
 		for _, in := range jobs {
 			if _, ok := want[in]; !ok {
-				want[in] = runOne(p, in)
+				want[in] = runOne(p, in, kw(g)...)
 			}
 			if !containsNilErr(want[in]) {
 				f = true
